@@ -60,6 +60,9 @@ func init() {
 			o := mixedOpts(thorough)
 			o.Faults, o.BindFailures, o.MIG = false, false, false
 			o.MaxPodsPerWL = 5
+			if chance(t, "pressure", 35) {
+				return GenPressureScript(t, "C03", "gang-pressure", o)
+			}
 			return GenScript(t, "C03", "gangs-faultfree", o)
 		},
 		Oracles: func() []Oracle { return []Oracle{GangOracle{}} },
